@@ -14,7 +14,10 @@ use std::path::{Path, PathBuf};
 use std::process::{Command, Stdio};
 use std::time::{Duration, Instant};
 
-pub const VERIF_ROOT: &str = "/verif";
+/// Root of the verification tree. `/verif` unless VERIF_ROOT_DIR says otherwise (used only by the
+/// mutant runner, which works on a private copy so that it cannot disturb the registered checks).
+pub static VERIF_ROOT: std::sync::LazyLock<String> =
+    std::sync::LazyLock::new(|| std::env::var("VERIF_ROOT_DIR").unwrap_or_else(|_| "/verif".to_string()));
 
 #[derive(Clone, Copy, Debug, PartialEq, Eq, Serialize, Deserialize)]
 pub enum Tier {
@@ -313,7 +316,7 @@ pub struct KnownFinding {
 }
 
 pub fn load_known() -> Vec<KnownFinding> {
-    let p = Path::new(VERIF_ROOT).join("known_findings.json");
+    let p = Path::new(VERIF_ROOT.as_str()).join("known_findings.json");
     match std::fs::read_to_string(&p) {
         Ok(s) => serde_json::from_str(&s).expect("known_findings.json must parse"),
         Err(_) => vec![],
@@ -632,13 +635,13 @@ pub struct RunOpts {
 }
 
 fn work_dir(id: &str) -> PathBuf {
-    let d = Path::new(VERIF_ROOT).join("work").join(id);
+    let d = Path::new(VERIF_ROOT.as_str()).join("work").join(id);
     let _ = std::fs::create_dir_all(&d);
     d
 }
 
 pub fn write_replay(id: &str, case: &Value, sig: &str, detail: &str) -> PathBuf {
-    let dir = Path::new(VERIF_ROOT).join("replays").join(id);
+    let dir = Path::new(VERIF_ROOT.as_str()).join("replays").join(id);
     let _ = std::fs::create_dir_all(&dir);
     let body = json!({"property": id, "signature": sig, "detail": detail, "case": case});
     let bytes = serde_json::to_vec_pretty(&body).unwrap();
@@ -691,9 +694,9 @@ pub fn supervise<P: Property>(p: &P, opts: &RunOpts) -> i32 {
         // own replay if there is one, otherwise the finding's first replay under its own property
         // (a root cause shared between properties is active for all of them while it reproduces)
         let (rid, rp) = match k.replays.get(id) {
-            Some(r) => (id.to_string(), Some(Path::new(VERIF_ROOT).join(r))),
+            Some(r) => (id.to_string(), Some(Path::new(VERIF_ROOT.as_str()).join(r))),
             None => match k.replays.iter().next() {
-                Some((pid, r)) => (pid.clone(), Some(Path::new(VERIF_ROOT).join(r))),
+                Some((pid, r)) => (pid.clone(), Some(Path::new(VERIF_ROOT.as_str()).join(r))),
                 None => (id.to_string(), None),
             },
         };
@@ -991,13 +994,13 @@ pub fn supervise<P: Property>(p: &P, opts: &RunOpts) -> i32 {
         "violations": sup.violations.len(),
         "inconclusive": sup.inconclusive,
     });
-    let edir = Path::new(VERIF_ROOT).join("evidence");
+    let edir = Path::new(VERIF_ROOT.as_str()).join("evidence");
     let _ = std::fs::create_dir_all(&edir);
     let mut f = std::fs::File::create(edir.join(format!("{}.json", id))).expect("evidence file");
     f.write_all(serde_json::to_string_pretty(&evidence).unwrap().as_bytes()).unwrap();
 
     if std::env::var("VERIF_SURVEY").is_ok() {
-        let sdir = Path::new(VERIF_ROOT).join("work").join(id).join("survey");
+        let sdir = Path::new(VERIF_ROOT.as_str()).join("work").join(id).join("survey");
         let _ = std::fs::remove_dir_all(&sdir);
         let _ = std::fs::create_dir_all(&sdir);
         let mut v: Vec<_> = agg.survey.iter().collect();
